@@ -132,7 +132,12 @@ key plus k·T: both keys address the output, the main key has priority); tag `t`
 `x` xor 0x80, `y` xor 0x01, `z` 0 (128 if the right tag is 0), `f` 255 (127 if the right tag is 255); shift: the position the sender used
 is index+shift; corrupt `t` (the output key is the honest one-time key PLUS the small-order point `<T>`: not ours) | `e` (ecdh amount bit 0) | `k` (legacy ecdh mask bit 0) | `c` (commitment bit 0) | `a` (RingCT output whose CLEAR amount field is
 non-zero, 77 + position: the reported amount must still be the opened one) | `0` / `1` / `L` (nothing is corrupted: in the legacy
-RingCT types the sender's mask is 0 / 1 / l−1 instead of a random one; with amount 0 and mask 0 the commitment is the identity). -/
+RingCT types the sender's mask is 0 / 1 / l−1 instead of a random one; with amount 0 and mask 0 the commitment is the identity) |
+`x` ("cross-key amounts": the one-time key and the tag come from this output's key as usual, but the ecdh field and the mask are
+encoded under the shared scalar of the OTHER transaction key of the position — deriv `m` / `b<k>`: the per-output secret `sc 'a' i`,
+published (deriv `m`) as the additional key of the position for the same destination; deriv `a` / `a<k>`: the main secret, whose key
+the wallet reads as `8·v·(r·B + k·T) = 8·r·(v·B)`, `B` the base of the main key. The commitment does not open under the key that
+matches the output: an owned one makes the scan `err InvalidCommitment`; nothing is retried with the other key). -/
 namespace Scen
 open Spec.Sender hiding Bytes
 open Spec.Amounts
@@ -239,10 +244,12 @@ def dummyEcdh (h : Hdr) : Option Ecdh :=
 def inRange (h : Hdr) (idx : Nat × Nat) : Bool :=
   h.majLo ≤ idx.1 && idx.1 < h.majHi && h.minLo ≤ idx.2 && idx.2 < h.minHi
 
+/-- the base of the main transaction key: G or S'(mainSub) -/
+def mainBase (h : Hdr) (v : Nat) (S : Ed.Pt) : Ed.Pt :=
+  match h.mainSub with | none => G | some (i, j) => (destAt refPrims v S i j).spend
 /-- the point of the main transaction key the sender publishes: r·G or r·S'(mainSub), plus mainTors·T -/
 def mainPoint (h : Hdr) (v : Nat) (S : Ed.Pt) : Ed.Pt :=
-  let mainBase := match h.mainSub with | none => G | some (i, j) => (destAt refPrims v S i j).spend
-  torsion h.T h.mainTors (Ed.smul (sc h.seed 'r' 0) mainBase)
+  torsion h.T h.mainTors (Ed.smul (sc h.seed 'r' 0) (mainBase h v S))
 
 def buildOut (h : Hdr) (v : Nat) (S : Ed.Pt) (pos : Nat) (o : OutD) : Built :=
   let unrelatedAdd := fun (_ : Unit) => enc (Ed.smul (sc h.seed 'u' pos) G)
@@ -259,8 +266,14 @@ def buildOut (h : Hdr) (v : Nat) (S : Ed.Pt) (pos : Nat) (o : OutD) : Built :=
     let addKey := if r.own then enc (torsion h.T r.tors (txKey refPrims secret d)) else
       match r.both with
       | some k => enc (torsion h.T k (mainPoint h v S))
-      | none => unrelatedAdd ()
-    let k := derivationScalar refPrims (derivation refPrims secret d.view) n
+      | none =>
+        -- corrupt `x` with deriv `m`: the additional key of this position is the sender's `a` key for the same destination
+        if r.corrupt == 'x' then enc (txKey refPrims (sc h.seed 'a' pos) d) else unrelatedAdd ()
+    -- the shared scalar the amount is encoded under: this output's own one, or (corrupt `x`) the OTHER key's of the position
+    let k :=
+      if r.corrupt != 'x' then derivationScalar refPrims (derivation refPrims secret d.view) n
+      else if r.own then derivationScalar refPrims (derivation refPrims (sc h.seed 'r' 0) (Ed.smul v (mainBase h v S))) n
+      else derivationScalar refPrims (derivation refPrims (sc h.seed 'a' pos) d.view) n
     let y := if compact h then compactMask refPrims k else
       match forcedMask r.corrupt with | some m => m | none => sc h.seed 'y' pos
     let C := enc (commitment refPrims specH y r.amount)
